@@ -187,6 +187,19 @@ func IteInt(c bool, a, b int) int {
 	return b
 }
 
+// ByteIn reports whether b is one of the bytes of set (branch-free: one disjunction).
+func ByteIn(b byte, set string) bool {
+	for i := 0; i < len(set); i++ {
+		if set[i] == b {
+			return true
+		}
+	}
+	return false
+}
+
+// ByteRange reports lo <= b <= hi (branch-free).
+func ByteRange(b, lo, hi byte) bool { return b >= lo && b <= hi }
+
 // Implies is a branch-free implication.
 func Implies(a, b bool) bool { return !a || b }
 
